@@ -46,6 +46,10 @@ func sweepFunctions(w *World) []*ssa.Function {
 		if fn.TypeParams().Len() > 0 || len(fn.TypeArgs()) > 0 {
 			continue
 		}
+		// functions with a light contract (tag C09c) are verified in contract mode instead
+		if ct := w.contracts[key]; ct != nil && hasProp(ct.Props, "C09c") {
+			continue
+		}
 		fns = append(fns, fn)
 	}
 	sort.Slice(fns, func(i, j int) bool { return funcKey(fns[i]) < funcKey(fns[j]) })
